@@ -424,7 +424,8 @@ def _run_observation_deprecated(
         if observation.with_dask:
             dataset_list = db.from_sequence(lst).map(_apply_pipeline).compute()
         else:
-            dataset_list = list(map(_apply_pipeline, tqdm(lst)))
+            # (a 'StopIteration' raised by a model must not end the loop silently)
+            dataset_list = [_apply_pipeline(element) for element in tqdm(lst)]
 
         # prepare lists for to-be-merged datasets
         parameters: list[list[xr.Dataset]] = [
@@ -501,7 +502,8 @@ def _run_observation_deprecated(
         if observation.with_dask:
             dataset_list = db.from_sequence(lst).map(_apply_pipeline).compute()
         else:
-            dataset_list = list(map(_apply_pipeline, tqdm(lst)))
+            # (a 'StopIteration' raised by a model must not end the loop silently)
+            dataset_list = [_apply_pipeline(element) for element in tqdm(lst)]
 
         # prepare lists/dictionaries for to-be-merged datasets
         parameters = [[] for _ in range(len(observation.parameter_mode.enabled_steps))]
@@ -584,7 +586,8 @@ def _run_observation_deprecated(
         if observation.with_dask:
             dataset_list = db.from_sequence(lst).map(_apply_pipeline).compute()
         else:
-            dataset_list = list(map(_apply_pipeline, tqdm(lst)))
+            # (a 'StopIteration' raised by a model must not end the loop silently)
+            dataset_list = [_apply_pipeline(element) for element in tqdm(lst)]
 
         # prepare lists for to-be-merged datasets
         logs = []
